@@ -10,10 +10,9 @@ Model of `ffi.new` and of assignment into existing C memory
 C memory is a `List UInt8`, little endian.  Types carry the layout *as data*
 (field offsets, struct sizes, array item sizes are what the real
 `ffi.typeof(T).fields` / `ffi.sizeof` report); the model never computes a
-layout.  A write outside the allocation is the outcome `Err.oob` and a division
-by zero is `Err.divzero` (both are undefined behaviour in C, not exceptions), so
-memory safety of the var-size pre-pass is a statement about the model never
-producing them.
+layout.  A write outside the allocation is the outcome `Err.oob`
+(undefined behaviour in C, not an exception), so memory safety of the var-size
+pre-pass is a statement about the model never producing it.
 
 Not modelled: float/complex/wide-char leaves, integer-typed or char-typed cdata
 used as scalar initialisers, `str` initialisers (always `TypeError` for the
@@ -24,16 +23,21 @@ an input (`same`).
 -/
 namespace CffiVerif.Init
 
-/-- Exception *types* of the real code plus the two undefined-behaviour outcomes. -/
+/-- Exception *types* of the real code plus the undefined-behaviour outcome. -/
 inductive Err
   | type | overflow | index | value | key | system | memory
   | oob        -- a write outside the allocated block
-  | divzero    -- `x / 0` executed
   | protocol   -- malformed model input (a cdata payload shorter than what is copied, a bit-field of a non-integer type)
   deriving DecidableEq, Repr, Inhabited
 
 abbrev Mem := List UInt8
 abbrev R := Except Err
+
+instance instDecEqR {α : Type} [DecidableEq α] : DecidableEq (R α)
+  | .ok a, .ok b => if h : a = b then isTrue (by rw [h]) else isFalse (by intro h'; cases h'; exact h rfl)
+  | .error a, .error b => if h : a = b then isTrue (by rw [h]) else isFalse (by intro h'; cases h'; exact h rfl)
+  | .ok _, .error _ => isFalse (by intro h; cases h)
+  | .error _, .ok _ => isFalse (by intro h; cases h)
 
 def zeros (n : Nat) : Mem := List.replicate n 0
 
@@ -167,8 +171,7 @@ def wrap64 (x : Int) : Int := (x + (2:Int)^63) % (2:Int)^64 - (2:Int)^63
 def addVarsize (offset itemsize n cur : Nat) : R Nat :=
   let size := wrap64 ((offset : Int) + wrap64 ((itemsize : Int) * (n : Int)))
   if size < 0 then .error .overflow
-  else if itemsize = 0 then .error .divzero
-  else if (size - (offset : Int)).tdiv (itemsize : Int) ≠ (n : Int) then .error .overflow
+  else if itemsize ≠ 0 ∧ (size - (offset : Int)).tdiv (itemsize : Int) ≠ (n : Int) then .error .overflow
   else .ok (if size.toNat > cur then size.toNat else cur)
 
 /-- One store performed by a conversion (or the exception that stops it). -/
@@ -428,7 +431,8 @@ def Op.covers (i : Nat) : Op → Bool
   | .rmw off s _ _ _ => decide (off ≤ i ∧ i < off + s)
   | .fail _ => false
 
-/-- The operation stays inside a block of `n` bytes (and is not itself the out-of-bounds outcome). -/
+/-- The operation stays inside a block of `n` bytes (and is not itself the
+undefined-behaviour outcome). -/
 def Op.fitsIn (n : Nat) : Op → Bool
   | .store off bs => decide (off + bs.length ≤ n)
   | .rmw off s _ _ _ => decide (off + s ≤ n)
@@ -516,9 +520,12 @@ def allocPtr (ty : Ty) (init : Option Init) : R (Nat × Option Nat) :=
           match init with
           | none => .ok (sz1, some sz1)
           | some i =>
-              match prepassStruct fs i sz1 with
-              | .ok d => .ok (d, some d)
-              | .error e => .error e
+              -- `if (init != Py_None && !CData_Check(init))`: a cdata gives no extra length
+              if i.isCData then .ok (sz1, some sz1)
+              else
+                match prepassStruct fs i sz1 with
+                | .ok d => .ok (d, some d)
+                | .error e => .error e
         else .ok (sz1, none)
     | _ => .ok (sz1, none)
 
@@ -626,15 +633,27 @@ def Fields.noVarItems : Fields → Bool
   | .cons _ ty rest => ty.noVarItems && rest.noVarItems
 end
 
-mutual
-/-- Every open array has items of non-zero size. -/
-def Ty.posOpenItems : Ty → Bool
-  | .prim _ => true
-  | .arr item isz len => item.posOpenItems && (len.isSome || decide (0 < isz))
-  | .agg _ fs => fs.posOpenItems
-def Fields.posOpenItems : Fields → Bool
+/-! Vocabulary of the property statements. -/
+
+/-- Item-by-item assignment `a[k] = x_k`, `k = start, start+1, …` (`cdata_ass_sub`). -/
+def assignItems (m : Mem) (k : Nat) (item : Ty) (isz : Nat) : Inits → R Mem
+  | .nil => .ok m
+  | .cons x xs =>
+      match convert m (k * isz) item .plain x with
+      | .ok m' => assignItems m' (k + 1) item isz xs
+      | .error e => .error e
+
+
+/-- All fields carry `BF_IGNORE_IN_CTOR` (the members of a union after the first). -/
+def Fields.allIgnored : Fields → Bool
   | .nil => true
-  | .cons _ ty rest => ty.posOpenItems && rest.posOpenItems
-end
+  | .cons info _ rest => info.ignore && Fields.allIgnored rest
+
+
+/-- Number of fields a list/tuple initialiser can reach. -/
+def Fields.ctorCount : Fields → Nat
+  | .nil => 0
+  | .cons info _ rest => (if info.ignore then 0 else 1) + Fields.ctorCount rest
+
 
 end CffiVerif.Init
